@@ -21,6 +21,7 @@ type Cond struct {
 	x, y *Cond
 	val  bool
 	ra, rb *RExpr
+	uterm, uterm2 string // uninterpreted terms ("ueq": equality, "ubool": boolean-valued application)
 }
 
 func cConst(b bool) *Cond { return &Cond{kind: "const", val: b} }
@@ -115,6 +116,13 @@ func (c *Cond) smt(p *printer) string {
 		return "(=> " + c.x.smt(p) + " " + c.y.smt(p) + ")"
 	case "req":
 		return "(= " + p.rref(c.ra) + " " + p.rref(c.rb) + ")"
+	case "ueq":
+		p.uterm(c.uterm)
+		p.uterm(c.uterm2)
+		return "(= " + c.uterm + " " + c.uterm2 + ")"
+	case "ubool":
+		p.uterm(c.uterm)
+		return "(= " + c.uterm + " utrue)"
 	}
 	panic("cond")
 }
@@ -229,6 +237,9 @@ type Machine struct {
 	entryFn   *ssa.Function
 	dump      map[string]any
 	loopAssume map[string]int
+	bigShared bool
+	externalPkgs []string
+	contracts map[string]Contract
 	invDefs   []invDef
 	preexistBelow int
 	cuts      []cutSpec
@@ -286,8 +297,12 @@ func (m *Machine) constInt(v *big.Int, t types.Type) Value {
 
 func (m *Machine) zero(t types.Type) Value {
 	if isBigIntType(t) {
+		if m.bigShared {
+			return BigV{cell: m.newObj(BigV{c: new(big.Int)}, "bigcell")}
+		}
 		return BigV{c: new(big.Int)}
 	}
+
 	if m.isFieldType(t) {
 		return VField{mkR("const", nil, nil, "0.0")}
 	}
